@@ -100,15 +100,18 @@ func DefaultOptions() Options {
 }
 
 type Lab struct {
-	App     *app.App
-	DB      dbm.DB
-	Accts   []Acct
-	Height  int64
-	Time    time.Time
-	ValCons []byte
-	ValOper sdk.ValAddress
-	InBlock bool
-	Opts    Options
+	// OnReadPanic, if set, is told when the application's read API panicked inside Observe (the
+	// panic then continues and ends the case)
+	OnReadPanic func(p interface{})
+	App         *app.App
+	DB          dbm.DB
+	Accts       []Acct
+	Height      int64
+	Time        time.Time
+	ValCons     []byte
+	ValOper     sdk.ValAddress
+	InBlock     bool
+	Opts        Options
 }
 
 var ValPriv = ed25519.GenPrivKeyFromSecret([]byte("lab-val"))
